@@ -56,6 +56,7 @@ pub fn e1_jobs(prop: &str, tier: Tier) -> (Vec<E1Job>, usize) {
     let d_acc = acc(&[(&[], &[]), (&[0], &[]), (&[], &[0]), (&[], &[1])]);
     let pa = |d| E1Job { profile: Profile::A { times: vec![1, 3, 5] }, depth: d };
     let pa1 = |d| E1Job { profile: Profile::A { times: vec![3] }, depth: d };
+    let pa15 = |d| E1Job { profile: Profile::A { times: vec![1, 5] }, depth: d };
     let pb = |d| E1Job { profile: Profile::B { access: b_acc.clone(), times: vec![3, 5], unnamed: true, dup: true, pairs: true }, depth: d };
     let pbs = |d| E1Job { profile: Profile::B { access: b_small.clone(), times: vec![3], unnamed: false, dup: true, pairs: true }, depth: d };
     let pc = |d| E1Job { profile: Profile::C { times: vec![1, 5] }, depth: d };
@@ -66,12 +67,12 @@ pub fn e1_jobs(prop: &str, tier: Tier) -> (Vec<E1Job>, usize) {
     let pill = |d| E1Job { profile: Profile::Ill, depth: d };
     let fam = if q { 64 } else { 400 };
     let jobs = match prop {
-        "C01" => if q { vec![pa(3), pbs(4), pc(6), pd(4), pe(1, true, 2)] } else { vec![pa(3), pa1(4), pb(4), pc(8), pd(6), pe(2, true, 2), pe(1, false, 3)] },
+        "C01" | "C05" => if q { vec![pa(3), pbs(4), pc(6), pd(4), pe(1, true, 2), pa15(4)] } else { vec![pa(4), pb(4), pc(8), pd(6), pe(2, true, 2), pe(1, false, 3)] },
         "C02" => if q { vec![pb(3), pbs(4), pd(5)] } else { vec![pb(4), pbs(5), pd(6)] },
         "C03" => if q { vec![pd(5), pf(4), pe(1, true, 2)] } else { vec![pd(7), pf(5), pe(2, true, 2)] },
         "C04" => if q { vec![pa1(3), pbs(3), pc(6), pd(4), pe(1, true, 2), pf(4)] } else { vec![pa(3), pbs(4), pc(8), pd(5), pe(2, true, 2), pf(5)] },
         "C07" => if q { vec![pe(1, true, 2), pe(2, true, 1), pe(1, false, 3)] } else { vec![pe(2, true, 2), pe(1, true, 3)] },
-        "C10" => if q { vec![pa(3), pb(3), pbs(4), pc(6), pd(5)] } else { vec![pa(3), pa1(4), pb(4), pbs(5), pc(8), pd(7)] },
+        "C10" => if q { vec![pa(3), pb(3), pbs(4), pc(6), pd(5), pa15(4)] } else { vec![pa(3), pa1(4), pb(4), pbs(5), pc(8), pd(7)] },
         "C12" => if q { vec![pf(4)] } else { vec![pf(6)] },
         "C13" => if q { vec![pf(4), pe(1, true, 2)] } else { vec![pf(5), pe(2, true, 2)] },
         "C18" => if q { vec![pill(4), pc(7), pbs(3), pn(3)] } else { vec![pill(5), pc(9), pb(4), pn(4), pe(1, true, 2)] },
@@ -80,7 +81,7 @@ pub fn e1_jobs(prop: &str, tier: Tier) -> (Vec<E1Job>, usize) {
         _ => vec![],
     };
     let fam_n = match prop {
-        "C01" | "C02" | "C04" | "C10" | "C18" | "C20" | "C03" => fam,
+        "C01" | "C02" | "C04" | "C05" | "C10" | "C18" | "C20" | "C03" => fam,
         _ => 0,
     };
     (jobs, fam_n)
@@ -101,7 +102,9 @@ pub fn run_e1(prop: &str, tier: Tier, budget: Duration, frag: &mut Frag) {
     if jobs.is_empty() && fam_n == 0 {
         return;
     }
-    let props = Props::from_list(&[prop]);
+    // C05: the plan-level isolation invariant is the mechanism schedule independence rests on; E1 looks
+    // for candidate plans (reported under a scratch id), E2 then has to exhibit a schedule (escalation)
+    let props = Props::from_list(&[if prop == "C05" { "C01" } else { prop }]);
     let need = need_for(prop);
     run_regressions(prop, frag);
     let start = Instant::now();
@@ -901,4 +904,41 @@ pub fn run_c17(tier: Tier, budget: Duration, frag: &mut Frag) {
     frag.traces_validated += st.histories;
     frag.exhaustive &= !st.capped;
     frag.samples.extend(samples);
+}
+
+
+// ---------------------------------------------------------------------------
+// E1 -> E2 escalation: a plan-level isolation finding is handed to the schedule explorer, which has to
+// exhibit a concrete schedule (overlapping windows / borrow panic / outcome different from sequential)
+// ---------------------------------------------------------------------------
+
+pub fn escalate(prop: &str, frag: &mut Frag) {
+    if !matches!(prop, "C01" | "C05" | "C07") {
+        return;
+    }
+    let src_prop = if prop == "C05" { "C01" } else { prop };
+    let cands: Vec<crate::report::Finding> = frag.col.best.iter().filter(|((p, _), _)| p == src_prop).map(|(_, (f, _))| f.clone()).filter(|f| f.replay.get("kind").and_then(|k| k.as_str()) == Some("plan")).collect();
+    if prop == "C05" {
+        // candidates are not verdicts for C05
+        frag.col.best.retain(|(p, _), _| p != "C01");
+    }
+    if cands.is_empty() {
+        return;
+    }
+    let mut scs = Vec::new();
+    for f in &cands {
+        if let Some(ops) = f.replay.get("ops").and_then(crate::spec::plan_from_json) {
+            scs.push(Scenario::plain(ops.clone(), Mode::Dispatch, 1));
+            if prop == "C05" {
+                scs.push(Scenario::plain(ops, Mode::Dispatch, 2));
+            }
+        }
+    }
+    let opts = ExploreOpts { bounds: vec![0, 1, 2], all_points: false, deadline: Instant::now() + Duration::from_secs(20), max_execs: 2_000_000, keep_traces: 0, deadlock_prop: None, delay_mode: false };
+    let r = run_scenarios(&scs, Mon::of(prop), &opts);
+    let confirmed = r.col.best.keys().filter(|(p, _)| p == prop).count();
+    frag.parts.push(json!({"engine":"E2 schedmc","scenarios":"escalation: plans whose executed layout puts conflicting systems side by side, explored until a schedule exhibits the violation","n_scenarios":scs.len(),"schedules":r.executions,"states":r.nodes,"transitions":r.transitions,"schedule_level_findings":confirmed}));
+    frag.states += r.nodes;
+    frag.transitions += r.transitions;
+    frag.col.merge(r.col);
 }
